@@ -23,6 +23,14 @@ REPO = "/repo"
 
 def run_one(d: Path, seed: str) -> tuple[str, str]:
     prop = re.match(r"(C\d\d)", d.name).group(1)
+    try:
+        import json as _json
+        meta = _json.loads((d / "meta.json").read_text())
+    except Exception:  # noqa: BLE001
+        meta = {}
+    if meta.get("verif_obsolete"):
+        # a later `fix:` commit made kopf robust against this change: it no longer violates this property
+        return d.name, "obsolete (no longer a violation of %s): %s" % (prop, meta["verif_obsolete"])
     patch = d / "patch_on_fixed_tree.diff"
     if not patch.exists():
         patch = d / "patch.diff"
